@@ -81,9 +81,28 @@ var c17Collide = [][]string{
 	{"1.0", "1e3", "0x10"},
 }
 
+// c17IntAlt: int universes whose elements have long runs of trailing zero
+// bits, huge magnitudes or differ in one bit only (arithmetic on the elements
+// instead of comparison must still decide membership exactly).
+var c17IntAlt = [][]int64{
+	{4294967296, 8589934592, 0},
+	{-9223372036854775808, 2, 4},
+	{1 << 62, 4, 6},
+	{1 << 32, 1<<32 + 1, 1 << 33},
+	{-1, 0, 1},
+	{9223372036854775807, -9223372036854775807, 65536},
+}
+
 func c17ListU(u []string, idx []int, strs bool, padFront, padBack int, fillBase int) interface{} {
+	return c17ListUI(u, nil, idx, strs, padFront, padBack, fillBase)
+}
+
+func c17ListUI(u []string, ui []int64, idx []int, strs bool, padFront, padBack int, fillBase int) interface{} {
 	if u == nil {
 		u = c17StrU
+	}
+	if ui == nil {
+		ui = c17IntU
 	}
 	if strs {
 		var l []string
@@ -106,7 +125,7 @@ func c17ListU(u []string, idx []int, strs bool, padFront, padBack int, fillBase 
 		l = append(l, c17FillI(fillBase+i))
 	}
 	for _, e := range idx {
-		l = append(l, c17IntU[e])
+		l = append(l, ui[e])
 	}
 	for i := 0; i < padBack; i++ {
 		l = append(l, c17FillI(fillBase+padFront+i))
@@ -177,7 +196,7 @@ func c17(r *rep.Run) {
 		totals = []int{50, 97, 98, 99, 100, 101, 102, 150, 199, 200, 201, 1000}
 		r.SetBudget(1800e9)
 	}
-	r.Rule = "every pair of lists of length <= 3 over a 3-element universe (all duplicates/orders) for int64 and for string elements; each pair unpadded and padded with disjoint filler (front / back / both sides of the core) to every total length in the list around the 100-element switch, with the left and with the right list the longer one; each operand passed as a literal and as a variable (4 forms), optimisations on and off; typed-empty lists of both element types and the empty literal in either position; every element-type mismatch; 8 further string universes whose elements collide under common 32-bit string hashes (lists of length <= 2); every history (depth 3) of 3 contents written in place into ONE list-variable buffer of length 3..256 under `in` and `overlap`. 4 universes of strings that look like numbers/literals; the list also as a named constant of the caller's config (compiled twice, the caller's list must stay intact). `in`: every probe (universe elements, a filler element, an absent value, wrong-typed probes) against every such list passed as literal, variable and pre-built set. Oracle: map-based set intersection/membership; overlap(A,B) == overlap(B,A); mismatches are errors. non-trivial = evaluations whose two lists total >= 100 elements"
+	r.Rule = "every pair of lists of length <= 3 over a 3-element universe (all duplicates/orders) for int64 and for string elements; each pair unpadded and padded with disjoint filler (front / back / both sides of the core) to every total length in the list around the 100-element switch, with the left and with the right list the longer one; each operand passed as a literal and as a variable (4 forms), optimisations on and off; typed-empty lists of both element types and the empty literal in either position; every element-type mismatch; 8 further string universes whose elements collide under common 32-bit string hashes (lists of length <= 2); every history (depth 3) of 3 contents written in place into ONE list-variable buffer of length 3..256 under `in` and `overlap`. 4 universes of strings that look like numbers/literals; 6 int universes with long trailing-zero runs, extremes and one-bit differences; the list also as a named constant of the caller's config (compiled twice, the caller's list must stay intact). `in`: every probe (universe elements, a filler element, an absent value, wrong-typed probes) against every such list passed as literal, variable and pre-built set. Oracle: map-based set intersection/membership; overlap(A,B) == overlap(B,A); mismatches are errors. non-trivial = evaluations whose two lists total >= 100 elements"
 	r.Assume = []string{"universe of 3 elements of very different shape (1/64/70-byte strings; 1, min, max) + disjoint filler of mixed lengths, magnitudes and signs; other element values are not explored"}
 	r.Cov["total_lengths"] = totals
 	lists := listsOver(3, maxLen)
@@ -185,12 +204,13 @@ func c17(r *rep.Run) {
 		a, b []int
 		strs bool
 		u    []string // string universe (nil: the default one)
+		ui   []int64  // int universe (nil: the default one)
 	}
 	var jobs []job
 	for _, strs := range []bool{false, true} {
 		for _, a := range lists {
 			for _, b := range lists {
-				jobs = append(jobs, job{a, b, strs, nil})
+				jobs = append(jobs, job{a, b, strs, nil, nil})
 			}
 		}
 	}
@@ -198,7 +218,16 @@ func c17(r *rep.Run) {
 		for _, a := range lists {
 			for _, b := range lists {
 				if len(a) <= 2 && len(b) <= 2 && len(a)+len(b) > 0 {
-					jobs = append(jobs, job{a, b, true, u})
+					jobs = append(jobs, job{a, b, true, u, nil})
+				}
+			}
+		}
+	}
+	for _, ui := range c17IntAlt {
+		for _, a := range lists {
+			for _, b := range lists {
+				if len(a) <= 2 && len(b) <= 2 && len(a)+len(b) > 0 {
+					jobs = append(jobs, job{a, b, false, nil, ui})
 				}
 			}
 		}
@@ -215,7 +244,7 @@ func c17(r *rep.Run) {
 			a, b interface{}
 			desc string
 		}
-		vs := []variant{{c17ListU(j.u, j.a, j.strs, 0, 0, 0), c17ListU(j.u, j.b, j.strs, 0, 0, 100), "unpadded"}}
+		vs := []variant{{c17ListUI(j.u, j.ui, j.a, j.strs, 0, 0, 0), c17ListUI(j.u, j.ui, j.b, j.strs, 0, 0, 100), "unpadded"}}
 		for _, tot := range totals {
 			pad := tot - len(j.a) - len(j.b)
 			if pad < 0 {
@@ -229,18 +258,18 @@ func c17(r *rep.Run) {
 					pf, pb = pad/2, pad-pad/2
 				}
 				vs = append(vs,
-					variant{c17ListU(j.u, j.a, j.strs, pf, pb, 0), c17ListU(j.u, j.b, j.strs, 0, 0, 5000), sprintf("total %d, left longer, filler %d/%d", tot, pf, pb)},
-					variant{c17ListU(j.u, j.a, j.strs, 0, 0, 0), c17ListU(j.u, j.b, j.strs, pf, pb, 5000), sprintf("total %d, right longer, filler %d/%d", tot, pf, pb)})
+					variant{c17ListUI(j.u, j.ui, j.a, j.strs, pf, pb, 0), c17ListUI(j.u, j.ui, j.b, j.strs, 0, 0, 5000), sprintf("total %d, left longer, filler %d/%d", tot, pf, pb)},
+					variant{c17ListUI(j.u, j.ui, j.a, j.strs, 0, 0, 0), c17ListUI(j.u, j.ui, j.b, j.strs, pf, pb, 5000), sprintf("total %d, right longer, filler %d/%d", tot, pf, pb)})
 			}
 			// both lists padded in FRONT by the same amount with different filler: common elements sit at the same index
 			if pad >= 2 {
-				vs = append(vs, variant{c17ListU(j.u, j.a, j.strs, pad/2, 0, 0), c17ListU(j.u, j.b, j.strs, pad/2, 0, 5000), sprintf("total %d, index-aligned cores", tot)})
+				vs = append(vs, variant{c17ListUI(j.u, j.ui, j.a, j.strs, pad/2, 0, 0), c17ListUI(j.u, j.ui, j.b, j.strs, pad/2, 0, 5000), sprintf("total %d, index-aligned cores", tot)})
 				// a list against itself
-				self := c17ListU(j.u, j.a, j.strs, pad/2, pad-pad/2, 0)
+				self := c17ListUI(j.u, j.ui, j.a, j.strs, pad/2, pad-pad/2, 0)
 				vs = append(vs, variant{self, self, sprintf("total %d, a list against itself", 2*lenOf(self))})
 			}
 			// both padded (balanced)
-			vs = append(vs, variant{c17ListU(j.u, j.a, j.strs, pad/2, 0, 0), c17ListU(j.u, j.b, j.strs, 0, pad-pad/2, 5000), sprintf("total %d, both padded", tot)})
+			vs = append(vs, variant{c17ListUI(j.u, j.ui, j.a, j.strs, pad/2, 0, 0), c17ListUI(j.u, j.ui, j.b, j.strs, 0, pad-pad/2, 5000), sprintf("total %d, both padded", tot)})
 		}
 		for vi, v := range vs {
 			forms := [][2]bool{{true, true}}
@@ -272,6 +301,8 @@ func c17(r *rep.Run) {
 		var probes []interface{}
 		if j.u != nil {
 			probes = []interface{}{j.u[0], j.u[1], j.u[2], "zz", "", int64(404), int64(1)}
+		} else if j.ui != nil {
+			probes = []interface{}{j.ui[0], j.ui[1], j.ui[2], int64(0), int64(1), int64(2), int64(-9223372036854775808), int64(1 << 32), ""}
 		} else if j.strs {
 			probes = []interface{}{c17StrU[0], c17StrU[1], c17StrU[2], c17FillS(1), c17FillS(3), "zz", "", strings.Repeat("b", 63), int64(1)}
 		} else {
@@ -287,7 +318,7 @@ func c17(r *rep.Run) {
 					if where == 1 {
 						pf, pb = 0, pad
 					}
-					la := c17ListU(j.u, j.a, j.strs, pf, pb, 0)
+					la := c17ListUI(j.u, j.ui, j.a, j.strs, pf, pb, 0)
 					var set interface{}
 					if j.strs {
 						m := map[string]struct{}{}
